@@ -25,8 +25,8 @@ PROP = {
     ],
     "runs": [{
         "component": "fds",
-        "quick": {"gen": [(250, 14)], "enum": [(2,)]},
-        "thorough": {"gen": [(4000, 24)], "enum": [(4,)]},
+        "quick": {"gen": [(700, 16)], "enum": [(3,)]},
+        "thorough": {"gen": [(12000, 24)], "enum": [(5,)]},
         "timeout": 900,
     }],
     "direct": [{"component": "fds", "timeout": 600}],
@@ -42,7 +42,7 @@ PROP = {
             "for Dial, Listen, NewPacketConn, NewUDPPeer, Open, accept; websocket handshake against a raw server answering garbage, a "
             "non-101 status, a wrong accept key, nothing, or a valid response cut at every byte offset, synchronous and asynchronous), "
             "RLIMIT_NOFILE lowered so that the k-th allocation fails for k = 1.. until the constructor succeeds, Close / pipe / Close "
-            "x3 per kind, Close after the IO context was closed, and GC x3 with reads and/or writes deferred (registry hook "
+            "x3 per kind, Close after the IO context was closed, NewMirroredBuffer with the re-mapping failing (mapping-count exhaustion in a child process; address-space size and mapping count must return to their values), and GC x3 with reads and/or writes deferred (registry hook "
             "VerifRegistered, sentinel finalizer, completion must still arrive).",
     "trusted_base": LEAN_TB + [
         "tools/respaths (Go AST path enumerator) and its configuration tools/respaths/config.json: which library / system calls "
